@@ -6,14 +6,15 @@ This module uses the error codes 70-79.
 
 import jax
 import jax.numpy as jnp
+from jax.flatten_util import ravel_pytree
 
 from .types import Array, Position
 
-_vravel = jax.vmap(jnp.ravel, in_axes=0, out_axes=0)
-
 
 def _history_to_matrix(history: Position) -> Array:
-    return jnp.column_stack([_vravel(x) for x in history.values()])
+    # one row per iteration; the columns are in the order in which the kernels
+    # flatten their position (ravel_pytree), not in the listing order of the keys
+    return jax.vmap(lambda position: ravel_pytree(position)[0])(history)
 
 
 def tune_inv_mm_diag(history: Position) -> Array:
